@@ -308,6 +308,15 @@ def c12(chk):
                workers=12 if chk.tier == "quick" else 16, timeout=3000)
     # ill-formed and unspecified inputs as well: precompilation errors are returned unchanged, string = tree level
     tokens(chk, "core", 4 if chk.tier == "quick" else 5, {"entry_consistency", "panic"}, ["if", "unspec"])
+    # source TEXTS (not token sequences): a typed string-level entry point must not read the text in its own way
+    # (signs glued to numbers, blanks at either end, boundary literals)
+    wl = 3 if chk.tier == "quick" else 4
+    prims = vf.make_prims("lexwords", chk.outdir, extra={"words": lex_word_candidates(wl)})
+    for fam in ("words", "raw"):
+        info, summ = vf.run_model(f"lex_{fam}{wl}", "MC_Lex.tla", {"Family": fam, "MaxLen": wl}, chk.outdir,
+                                  workers=12 if chk.tier == "quick" else 16, env_extra={"PRIMS": prims}, timeout=3000)
+        chk.add_model(info, summ, {"entry_consistency", "panic"}, [],
+                      note=f"MC_Lex.tla family {fam} up to length {wl}: string level = tree level for every entry point")
     traces(chk, "programs", "trace_programs",
            note="random programs, each through a random one of the 48 entry points (string / tree level, eight result kinds, "
                 "fresh / shared / mutable context)")
@@ -343,7 +352,7 @@ def lex_word_candidates(maxlen):
     special = ['inf', 'Inf', 'INF', 'infinity', 'Infinity', 'nan', 'NaN', 'NAN', 'true', 'false', 'True', 'FALSE', '0x7fffffffffffffff', '0x8000000000000000', '0xffffffffffffffffff', '9223372036854775807', '9223372036854775808', '99999999999999999999', '0X1f', '1_000', '0x', '0xg', '1e400', '1e-400', '4.9e-324', '1.7976931348623157e308', '0.1', '00012', '0x00ff', '1e5', '1E5', '1.e5', '.5e1', '5.', 'inf1', 'nanx', 'infinit']
     for s in itertools.chain(special, ("".join(t) for n in range(1, maxlen + 1) for t in itertools.product(chars, repeat=n))):
         if True:
-            for src in (s, s + "-" + s, s + "+" + s, "a-" + s, s + "e-3", "0x" + s, s + "-1", s + "+9"):
+            for src in (s, s + "-" + s, s + "+" + s, "a-" + s, s + "e-3", "0x" + s, s + "-1", s + "+9", "-" + s, "+" + s):
                 if not ok.match(src):
                     continue
                 segs = re.split(r"([+-])", src)
